@@ -83,12 +83,12 @@ Proof.
       destruct (Z.eqb_spec z5 0) as [->|Hne]; reflexivity.
   - (* VDuration *)
     cbn [repr norm]. unfold resolves in Hres. cbn [type_of hd snd fst] in Hres.
-    cbn [g_raw_local] in Hraw. unfold raw_dq. rewrite Hraw.
+    cbn [wf_local] in Hwf. unfold raw_dq. rewrite Hwf.
     rewrite eval_ECall. cbn [eval_list eval eval_kws].
     rewrite (apply_call_lib W E _ _ LDuration _ _ Hres) by reflexivity. reflexivity.
   - (* VPeriod *)
     cbn [repr norm]. unfold resolves in Hres. cbn [type_of hd snd fst] in Hres.
-    cbn [g_raw_local] in Hraw. unfold raw_dq. rewrite Hraw.
+    cbn [wf_local] in Hwf. unfold raw_dq. rewrite Hwf.
     rewrite eval_ECall. cbn [eval_list eval eval_kws].
     rewrite (apply_call_lib W E _ _ LPeriod _ _ Hres) by reflexivity. reflexivity.
   - (* VEnum *)
